@@ -106,6 +106,7 @@ func TestProp_ContainedAndClassified(t *testing.T) {
 		lastOnHandle := map[*f1testing.T]behaviour{}
 		failThenPassSameHandle := 0
 		var invocations atomic.Uint64
+		helper := rapid.IntRange(0, 5).Draw(rt, "inHelperGoroutine") == 0
 		scenario := func(*f1testing.T) f1testing.RunFn {
 			return func(it *f1testing.T) {
 				invocations.Add(1)
@@ -124,6 +125,17 @@ func TestProp_ContainedAndClassified(t *testing.T) {
 				if mode == "file" && id%2 == 1 {
 					// iterations of the first config-file stage are still running when the second stage starts
 					time.Sleep(45 * time.Millisecond)
+				}
+				if helper {
+					// the behaviour runs in a goroutine of the scenario's own, guarded by the exported
+					// CheckResults the way f1 guards bodies itself; the body waits for it
+					done := make(chan struct{}, 1)
+					go func() {
+						defer f1testing.CheckResults(it, done)
+						b.Do(it)
+					}()
+					<-done
+					return
 				}
 				b.Do(it)
 			}
@@ -171,7 +183,7 @@ func TestProp_ContainedAndClassified(t *testing.T) {
 			names[i] = behaviours[p].Name
 			nonString = nonString || behaviours[p].NonStringPanic
 		}
-		desc := fmt.Sprintf("%s c=%d N=%d plan=%v flags=%v log-to=%s", mode, conc, n, names, flags, logTo)
+		desc := fmt.Sprintf("%s c=%d N=%d plan=%v flags=%v log-to=%s helper-goroutine=%v", mode, conc, n, names, flags, logTo, helper)
 
 		var wantPass, wantFail uint64
 		mu.Lock()
@@ -191,6 +203,9 @@ func TestProp_ContainedAndClassified(t *testing.T) {
 
 		nontrivial := ftp > 0 && nonString
 		cls := []string{"mode-" + mode, "log-to-" + logTo}
+		if helper {
+			cls = append(cls, "behaviours-in-a-helper-goroutine-under-CheckResults")
+		}
 		if ftp > 0 {
 			cls = append(cls, "fail-then-pass-on-same-handle")
 		}
